@@ -16,6 +16,7 @@ import AcnProofs.Lemmas.QueueOrder
 import AcnProofs.Lemmas.QueueSpec
 import AcnProofs.Lemmas.QueueSorted
 import AcnProofs.Lemmas.QueueRefine
+import AcnProofs.Lemmas.QueueSpecExec
 import Mathlib.Tactic
 
 namespace Acn.C11
@@ -107,6 +108,12 @@ example : (Queue.run Queue.empty0
     [.unit, .unit, .unit, .unit, .event ⟨1, .plugin, "q"⟩,
      .events [⟨2, .unplug, "u"⟩, ⟨2, .plugin, "p"⟩, ⟨2, .recompute, "r"⟩], .err .indexError] := by
   decide +kernel
+
+/-- the executable instance of the specification (it picks the first inserted among the
+    key-minimal events; the driver reports it next to the heap layer) is a run of the relation
+    too — `Step` covers every choice function that returns a key-minimal pending event -/
+theorem spec_instance_sound (s : State) (ops : List QOp) :
+    Run s (QSpec.run s ops).2 (QSpec.run s ops).1 := QSpec.run_sound s ops
 
 /-! ### what every run of the specification satisfies (hence every heap-layer run) -/
 
